@@ -8,13 +8,13 @@ from mc.core import Acc, Hang
 ID = "C07"
 RULE = ("E-INPUT: every dataset of <= 2 (thorough <= 3) data as sequences (each multiset also reversed / rotated) over 6 times x "
         "widths {20,55} x text {absent,'ab','<&>\"e-acute'}, for numeric times on a LinearScale and for datetime/date values "
-        "(4 with a time of day, a date, a month end) on a TimeScale; plus bare datetime.time data and a seeded time; x 4 "
+        "(4 with a time of day, a date, a month end) on a TimeScale (caller-supplied, or the library default for directions up/left with default engine options); plus bare datetime.time data and a seeded time; x 4 "
         "directions x domain {derived, explicit} x 3 engine option sets x 2 (size, layer gap, padding, margin, tick display) "
         "x 2 back-ends. Each case = real Timeline(...).export(), parsed (R-SVG/R-TIKZ), compared with the affine model of the "
         "caller's own data. Non-trivial: >= 2 layers or a displaced label.")
 ASSUMPTIONS = ["explicit widths only (no LaTeX in the image)", "the tick instants are the ones the timeline's scale reports",
                "margin scopes are not compared (documented TikZ limitation)"]
-REQUIRED_COUNTERS = ("exports", "multi_layer", "displaced", "time_of_day_data", "text_special")
+REQUIRED_COUNTERS = ("exports", "multi_layer", "displaced", "time_of_day_data", "text_special", "default_scale_exports")
 
 
 def bounds(tier, seed):
@@ -43,10 +43,17 @@ def judge(case, acc=None):
     opts = dc.build_options(kind, direction, domain, dc.ENGINE[ei], dc.SIZES[si], ticks)
     if not domain and len({draw.as_number(draw.to_instant(d["time"], _dt.date(2020, 1, 1))) for d in data}) < 2:
         return "SKIP", "degenerate derived domain (C11's business)"
-    scale = opts["scale"]
+    default_scale = kind == "time" and ei == 0 and direction in ("up", "left")
+    if default_scale:
+        del opts["scale"]  # the library's own default time scale
+    scale = opts.get("scale")
     today0 = _dt.date.today()
     try:
         doc, tl, R = dc.run_export(backend, data, opts)
+        if scale is None:
+            scale = tl.options["scale"]
+            if acc is not None:
+                acc.counters["default_scale_exports"] += 1
     except Hang:
         return "HANG", "export did not return"
     except draw.ParseError as e:
